@@ -526,14 +526,17 @@ func importTar(in io.ReaderAt) (*tarFile, error) {
 }
 
 func moveRec(name string, in *tarFile, out *tarFile, picked map[string]struct{}) error {
-	return moveRecFrom(name, in, out, picked, true)
+	return moveRecFrom(name, in, out, picked, true, make(map[string]struct{}))
 }
 
 // moveRecFrom moves the entry "name" preceded by its parent directories and its hardlink target.
 // required is true for a path that must exist (a listed path or a hardlink target) and false
 // for an ancestor directory: a tar blob doesn't always contain an entry for every parent
 // directory so the absence of it must not be treated as the absence of the requested file.
-func moveRecFrom(name string, in *tarFile, out *tarFile, picked map[string]struct{}, required bool) error {
+// visiting holds the names on the current recursion path: reaching one of them again means
+// that hardlinks (and parent directories) form a cycle, which is reported as an error
+// instead of recursing forever.
+func moveRecFrom(name string, in *tarFile, out *tarFile, picked map[string]struct{}, required bool, visiting map[string]struct{}) error {
 	name = cleanEntryName(name)
 	if name == "" { // root directory. stop recursion.
 		if e, ok := in.get(name); ok {
@@ -553,13 +556,18 @@ func moveRecFrom(name string, in *tarFile, out *tarFile, picked map[string]struc
 	if required && !okIn && !okOut && !okPicked {
 		return fmt.Errorf("file: %q: %w", name, errNotFound)
 	}
+	if _, ok := visiting[name]; ok {
+		return fmt.Errorf("file: %q: hardlink cycle", name)
+	}
+	visiting[name] = struct{}{}
+	defer delete(visiting, name)
 
 	parent, _ := path.Split(strings.TrimSuffix(name, "/"))
-	if err := moveRecFrom(parent, in, out, picked, false); err != nil {
+	if err := moveRecFrom(parent, in, out, picked, false, visiting); err != nil {
 		return err
 	}
 	if e, ok := in.get(name); ok && e.header.Typeflag == tar.TypeLink {
-		if err := moveRecFrom(e.header.Linkname, in, out, picked, true); err != nil {
+		if err := moveRecFrom(e.header.Linkname, in, out, picked, true, visiting); err != nil {
 			return err
 		}
 	}
